@@ -131,7 +131,8 @@ PROPS = {
     },
     "C03": {
         "module": "Shutter.Properties.C03",
-        "theorems": ["C03_only_correct", "C03_complete", "C03_keys_delivered", "C03_agree", "C03_own_trigger_no_key", "C03_open_finding_witness"],
+        "theorems": ["C03_only_correct", "C03_complete", "C03_keys_delivered", "C03_agree", "C03_own_trigger_no_key", "C03_open_finding_witness",
+                     "C03_accessnode_sync_history", "C03_accessnode_other_eons", "C03_accessnode_accepts", "C03_accessnode_needs_both"],
         "driver": {"pkg": "./cmd/netcheck"},
         "trusted_base": [KERNEL + " (these theorems use Mathlib through C01: Mathlib.LinearAlgebra.Lagrange)", CORR,
                          "noderig: n real handler stacks per flavour (core handlers, flavour handlers, flavour middleware) over pgfake + "
@@ -139,7 +140,9 @@ PROPS = {
                          "modelled, not verified: BLS12-381 (verify i s <-> s = f(x_i)•H as in C01); the executable model instance is "
                          "arithmetic modulo the BLS scalar order on discrete logarithms",
                          "the Gnosis / Shutter-service signature collection is exercised by the rig (honest messages must be accepted "
-                         "by every peer and by the access node) but the theorems are about the core tables"],
+                         "by every peer and by the access node); the theorems are about the core tables and about the access node's "
+                         "store and validator (eon keys and keyper sets abstract ids; what a message is worth under each comes from the "
+                         "real checks)"],
         "explanation": "Theorems (Lean + Mathlib, any field, module, polynomial of degree < t, identity points, n, t, any list of "
                        "identities): after ANY sequence of accepted events (honest keypers' share messages in any order with any "
                        "repetitions, keys messages, the own trigger) every stored key is the epoch secret key of its identity "
@@ -150,7 +153,12 @@ PROPS = {
                        "n=3,t=2) schedules with triggers anywhere, lost shares (<= n-t per receiver) and duplicates: every honest message "
                        "must be accepted by every peer (and the access node), handled without error, stored keys must verify against "
                        "the eon key, and every keyper that saw >= t distinct keypers' shares or a keys message must hold all keys; each "
-                       "node's event sequence is also run through the model.",
+                       "node's event sequence is also run through the model. The access node: after any sequence of chain-sync "
+                       "announcements the verdict on a keys message is the one under the eon key and keyper set last announced for the "
+                       "message's own eon (C03_accessnode_sync_history, induction over the history), so announcements for other eons "
+                       "change nothing (C03_accessnode_other_eons) and an honest message stays accepted (C03_accessnode_accepts); the "
+                       "rig announces successor and predecessor configurations between deliveries and compares the real node with the "
+                       "model on each keys message and on copies naming other eons or another instance.",
         "assumptions": ["C03_complete needs the threshold to be reached at the arrival of a share message; when it is completed by the "
                         "keyper's own shares (trigger after receipt) nothing aggregates: open known finding own-share-completes-threshold",
                         "a Gnosis keyper that was not triggered itself never forwards keys (no current trigger row); it still stores them"],
@@ -387,10 +395,11 @@ PROPS = {
     },
     "C13": app(
         "C13",
-        ["C13_replay", "C13_commit_pure", "C13_saved_height", "C13_atomic_save", "C13_persist_order_pinned"],
+        ["C13_replay", "C13_commit_pure", "C13_saved_height", "C13_atomic_save", "C13_saves_after_crashes", "C13_persist_order_pinned"],
         "Theorems (Lean): replay determinism of the model over any split of any history; the saved height is the last "
         "executed block; crash-atomicity of the create/write/sync/rename protocol on a file-system model with loss of "
-        "un-synced data, for every crash point including inside the write; the protocol's step order is regenerated from "
+        "un-synced data, for every crash point including inside the write, and for every history of saves cut short "
+        "anywhere with anything left at the temp path in between; the protocol's step order is regenerated from "
         "the source and pinned. Checked on the real code: at commit points of generated histories the state is saved with "
         "PersistToDisk, reloaded with LoadShutterAppFromFile, compared, and both nodes continue and are compared call by "
         "call; one real save is run under strace and the observed syscall sequence is judged by the Lean predicate.",
